@@ -197,6 +197,8 @@ def spec_values(spec):
     if "vals" in spec:  # explicit values (flat list) override the arithmetic pattern
         special = {"NaN": float("nan"), "inf": float("inf"), "-inf": float("-inf")}
         v = np.array([special[x] if isinstance(x, str) and x in special and vk == "f" else x for x in spec["vals"]], dtype={"f": float, "i": int, "b": bool, "s": object}[vk])
+    if spec.get("dtype"):
+        v = v.astype(spec["dtype"])      # a narrower type of the same kind (float32, int32, ...)
     return v.reshape(shape)
 
 
